@@ -7,16 +7,14 @@ From C05 Require Import Gen Model Proofs.
 Import ListNotations.
 Local Open Scope Z_scope.
 
-(* soundness: whatever the analyzer accepts obeys every rule - on programs outside the one known hole
-   (a switch without else and with >= 2 cases whose last case block has a direct `fallthrough`) *)
-Theorem C05_analyzer_sound_partial : forall p, nolf_block p = true -> analyzer_ok p = true -> rule_ok p = true.
-Proof. exact analyzer_sound_partial. Qed.
-Print Assumptions C05_analyzer_sound_partial.
+(* soundness, full strength: whatever the analyzer accepts obeys every rule (all programs, any nesting depth) *)
+Theorem C05_analyzer_sound : forall p, analyzer_ok p = true -> rule_ok p = true.
+Proof. exact analyzer_sound. Qed.
+Print Assumptions C05_analyzer_sound.
 
-(* full strength is FALSE for the unchanged analyzer (casescope.switchcase_index = 1) *)
-Theorem C05_analyzer_sound_refuted : ~ analyzer_sound_full.
-Proof. exact analyzer_sound_refuted. Qed.
-Print Assumptions C05_analyzer_sound_refuted.
+Theorem C05_flow_sound : forall p, off_flow p = [] -> rule_flow p = true.
+Proof. exact flow_sound_thm. Qed.
+Print Assumptions C05_flow_sound.
 
 (* per rule family, unconditional *)
 Theorem C05_names_sound : forall p, off_names p = [] -> rule_names p = true.
